@@ -35,6 +35,7 @@ rc = subprocess.call(["lake", "build"] + targets, cwd=check.LEAN)
 print("lake build rc", rc)
 def warm(pid):
     bins, err = check.build_harness(pid, PROPS[pid], [])
+    check.cleanup(pid)
     return pid, err
 with ThreadPoolExecutor(4) as ex:
     for pid, err in ex.map(warm, list(PROPS)):
